@@ -33,11 +33,36 @@ CLAIMED = {
             'Seeded search over (s, p or lr-scheduled p_t, S) schedules and op histories (STEP, CLOCK_JUMP up to 2^20, stale-checkpoint CRASH_RESTORE, REJIT) for Distributed Shampoo (jit, simulated replicas, quantized, sharded) and Tearfree Shampoo/Sketchy. Per tick: every counter +1, statistics/preconditioner/diagnostic leaves byte-identical off schedule, refreshed statistics equal the one-step float64 reference, accepted roots satisfy the root oracle against the statistics stored at that tick, and the update comes from the branch (graft momentum vs preconditioned) the clock selects.',
             'The automaton is written from the docstrings; lr-scheduled intervals are evaluated in float64 with dont-care ticks at rounding boundaries; bounded sizes and horizons.',
             'DESIGN.md 4 C04'),
+    'C07': ('exploration',
+            'deterministic simulation: configuration swarm over every constructor argument x trees x short histories with restore; outcome taxonomy (success / explicit rejection / internal error) and layout oracles incl. scan carry, checkpoint target and sharded declarations',
+            'Seeded search over all constructor options of distributed_shampoo (compression, frequent directions, gradient averaging, reuse/reset, LOBPCG, INPUT/OUTPUT, block size 1, metrics on/off, quantization, simulated replicas, sharding, x64 on/off), sm3 and tearfree on trees of rank 0-4 with unit dims and the empty tree. Every run must either succeed or raise an explicit explanatory rejection; on success the update tree matches the parameters in structure/shape/dtype, the state signature is a fixed point of update (also demonstrated as a lax.scan carry and a from_bytes target), and in sharded mode init, declared shapes/dtypes and partition specs describe one tree.',
+            'Explicit rejection = raise statement or assert-with-message in a repository frame; LOBPCG only on sizes its JAX implementation accepts; T<=4 ticks.',
+            'DESIGN.md 4 C07'),
+    'C08': ('exploration',
+            'deterministic simulation: three optimizer instances in lock-step (blocked tensor / its blocks as leaves / plus companions) on histories with per-block scales 1e-6..1e6, one-hot and zero blocks',
+            'Twin runs for Distributed Shampoo (1 or 2 blocked axes, ragged last block) and Tearfree Shampoo: per tick every block of the blocked tensor gets the update (graft none) or the direction (grafted) that it gets as a separate leaf, zero-gradient blocks get zero, and the tensor\'s update is unchanged by companion leaves of arbitrary shape and scale.',
+            'Momentum and weight decay off; tolerances 2e-3 (float32 DS) / 1e-6 (float64 Tearfree) relative.',
+            'DESIGN.md 4 C08'),
     'C09': ('exploration',
             'deterministic simulation: sketch state after every update vs the exact float64 discounted covariance kept by the oracle, over seeded histories with zero / low-rank / scale-jump ticks, restores and clock jumps',
             'Three systems run real code: Tearfree Sketchy (per-axis state), the Distributed Shampoo frequent-directions root (decoded from the packed preconditioner slot with the repo\'s own unpack) and the OCO sketches. After every sketch update: columns orthonormal-or-zero, l>=0, t>=0, V diag(l) V\' <= C <= V diag(l) V\' + t I, t_new = b t_old + r with r recomputed from the stored previous sketch, zero-gradient ticks discount sketch and escaped mass by b, rank<=k histories give t=0, stored inverse roots equal (l+t+eps)^(-1/p).',
             'float32 tolerances 1e-4..2e-4 relative to ||C|| (probed headroom >= 15x); the DS FD path is driven with finite gradients only (its LAPACK svd hangs on non-finite input); one known finding (padded DS FD statistics) is listed in known_findings.json.',
             'DESIGN.md 4 C09, appendix C'),
+    'C10': ('exploration',
+            'deterministic simulation, in situ: compressed-mode runs; packed state decoded with the repo\'s own unpack and compared with dense application and with the exact float64 truncated root',
+            'Restricted reach (clause 1, pack/unpack as isolated functions, is not decided). In compression_rank = +-1..3 runs (jit, simulated replicas, sharded, padded statistics): the update through the compressed application path equals the reference\'s dense application of c(I-VV\')+V diag(e) V\' (one-step refinement and grafting direction/norm oracles), and on refresh ticks the retained subspace, the retained root values and the mean of the non-retained root values equal those of the exact float64 eigendecomposition of the stored statistics for some admissible ridge.',
+            'Root-value comparisons are vacuous where lambda+d is within 300x of the float32 eigenvalue noise or the gap at the cut is below 1e-3 lambda_max.',
+            'DESIGN.md 5 C10'),
+    'C11': ('exploration',
+            'deterministic simulation, in situ: every quantized leaf of every visited state (SM3 int8 momentum; DS int8 momenta, int16 statistics/preconditioners under simulated replicas) under scale jumps and near-overflow/subnormal faults',
+            'Restricted reach (all float32 tensors / bfloat16 / direct calls are not decided). Per quantized leaf: integers within +-127/32767 and never the most-negative value, column max |q| equals the bucket count, payload diagonal zero up to rounding residue, dequantized value within half a bucket of the float exposed by the update, re-quantization with the repo\'s quantizer reproduces the integers, carried-but-not-updated leaves keep their integers and their bucket sizes stay within 4 ulp of where the carried stretch began; untouched leaves are byte-identical (cadence oracle).',
+            'Leaves whose bucket sizes or diagonals are non-finite (the quantized float was not finite) are vacuous.',
+            'DESIGN.md 5 C11'),
+    'C12': ('exploration',
+            'deterministic simulation: SM3 accumulators per tick vs an exact float64 per-entry decayed sum kept by the oracle, over histories with zero ticks, scale jumps 1e+-6 and crash-restores',
+            'Per tick and coordinate: min over the coordinate\'s accumulators >= exact decayed sum (1-1e-5); beta2=1 => accumulators non-decreasing; beta1=0 and no weight decay => |u| <= lr |g| / sqrt(v+eps); rank 1 => equality with diagonal AdaGrad/RMSProp.',
+            'float32 state, x64 off.',
+            'DESIGN.md 4 C12'),
     'C13': ('exploration',
             'deterministic simulation: D in-process replicas (vmap named axis; real pmap cross-check) vs a one-replica twin, RESCALE and CRASH_RESTORE mid-run',
             'Seeded search over trees (N statistics, all residues N mod D), D in 2..13 simulated replicas (and real pmap on forced host devices for D<=8), full / int16-quantized / low-rank compressed preconditioners, and sharded mode with different declared device counts. After every tick all replicas are byte-identical and agree with the one-replica twin (statistics, momenta, gate decisions, preconditioners to a conditioning-aware rounding tolerance, updates).',
@@ -58,6 +83,11 @@ CLAIMED = {
             'Seeded search over algorithm x dimension x sketch size x delta x lr x gradient sequence kind; OGD and diagonal AdaGrad iterates equal their closed forms to 1e-12, every sketched method keeps its last sketch row zero and its sketch within the FD bracket, alpha equals delta plus the accumulated escaped mass, S-AdaGrad equals exact full-matrix AdaGrad whenever the history rank is below the sketch size and delta>0, and the compiled runner\'s history at the observation indices equals the stepwise states.',
             'x64 on; the lossless comparison is vacuous when cond(delta I + C) makes float64 meaningless (>4e9).',
             'DESIGN.md 4 C16'),
+    'C17': ('exploration',
+            'deterministic simulation: train -> durable checkpoints -> reallocation tool (states= and real files with shuffled listdir / seeded executor order) -> restart pipeline',
+            'Restricted reach (only score vectors a simulated training run produces, incl. zero scores of dead layers, exact ties and 1e+-6 scale disparity). For every rule / running average / base rank: every assigned rank is an int in [1, dim], every equal-dim group sums to at most group size x base rank, the result does not depend on listdir or executor order, and Sketchy restarts and steps with the returned memory_alloc.',
+            'os.listdir and ThreadPoolExecutor are rebound inside the reallocation module only; PYTHONHASHSEED is pinned because the tool breaks ties by set iteration order.',
+            'DESIGN.md 5 C17'),
 }
 
 NOT_YET = {}
